@@ -725,7 +725,13 @@ func runSQLite(args []string) {
 			before, _ := dumpTable(sqldb, "t1", st.cols)
 			var firstID int64
 			if len(before) > 0 && sqldb.QueryRow("SELECT min(rowid) FROM t1").Scan(&firstID) == nil {
-				db.Query(ctx, del, SIDs{-12345}).Run() // (deletes nothing; the statement is now cached)
+				// (deletes nothing; the statement is now cached - in half of the cases with
+				// another number of elements than the transaction will pass: other SQL)
+				warm := SIDs{-12345}
+				if cr.Chance(1, 2) {
+					warm = SIDs{-12345, -12346, -12347}
+				}
+				db.Query(ctx, del, warm).Run()
 				if tx2, berr := db.Begin(ctx, nil); berr == nil {
 					// (one pooled connection: a statement that leaves the transaction would wait
 					// for ever; the deadline turns that into an error)
@@ -742,6 +748,8 @@ func runSQLite(args []string) {
 					switch {
 					case errors.Is(e, context.DeadlineExceeded):
 						fail("C17", caseJSON, "a cached statement issued through a transaction did not run on the transaction's connection (it waited for another one)", "")
+					case e != nil:
+						fail("C17", caseJSON, fmt.Sprintf("DELETE ... IN ($SIDs[:]) with one element through a transaction, after the Statement had run on the DB with %d element(s), failed: %v; hand-written SQL succeeds", len(warm), e), "")
 					case e == nil && commit && len(after) != len(before)-1:
 						fail("C17", caseJSON, fmt.Sprintf("DELETE through a committed transaction: %d rows before, %d after; hand-written SQL leaves %d", len(before), len(after), len(before)-1), "")
 					case e == nil && !commit && fmt.Sprint(after) != fmt.Sprint(before):
